@@ -113,7 +113,15 @@ pub fn c06_configs(tier: Tier) -> Vec<OutCfg> {
 pub fn c14_configs(tier: Tier) -> Vec<OutCfg> {
     let mut v = Vec::new();
     for (ver, role) in crate::c05::roles() {
-        let mut sets: Vec<Vec<SK>> = vec![vec![SK::Q2Hold, SK::Q2Hold], vec![SK::Q2Hold, SK::Q1, SK::Q2Hold], vec![SK::Q2Hold, SK::Q2Rel], vec![SK::Q2Drop, SK::Q2Hold]];
+        let mut sets: Vec<Vec<SK>> = vec![
+            vec![SK::Q2Hold, SK::Q2Hold],
+            vec![SK::Q2Hold, SK::Q1, SK::Q2Hold],
+            vec![SK::Q2Hold, SK::Q2Rel],
+            vec![SK::Q2Drop, SK::Q2Hold],
+            // a send refused because its caller-chosen id belongs to an exchange whose receipt is held must not touch
+            // that exchange: it still releases and completes with its own PUBCOMP (seeded change C14_r6)
+            vec![SK::Q2HoldId(5), SK::Q1Id(5), SK::Q2Hold],
+        ];
         if tier == Tier::Thorough {
             sets.push(vec![SK::Q2Hold, SK::Q2Hold, SK::Q2Hold]);
             sets.push(vec![SK::Q2Hold, SK::Q2Hold, SK::Q1, SK::Q2Hold]);
@@ -169,7 +177,7 @@ pub fn run_c14(tier: Tier) -> i32 {
     for (i, c) in c14_configs(tier).iter().enumerate() {
         ck.explore::<Out>("outbound", i, c, &ecfg);
     }
-    ck.rule = "per role: 2-4 concurrent send_exactly_once (receipt held until the explorer releases or drops it; also immediate release / drop variants), optionally a QoS 1 send in between, send limits 8 and 2; peer acknowledges in the order received (PUBREC for PUBLISH, PUBCOMP for PUBREL), singly or batched in one write; Release(j)/DropReceipt(j) in every order; oracle: each send resolves with the PUBREC of its own id, each release/drop writes exactly one PUBREL with its own id (none while the receipt is held), release() completes Ok exactly when its own PUBCOMP was delivered".into();
+    ck.rule = "per role: 2-4 concurrent send_exactly_once (receipt held until the explorer releases or drops it; also immediate release / drop variants), optionally a QoS 1 send in between (also one that is refused because it re-uses the caller-chosen id of an exchange whose receipt is held), send limits 8 and 2; peer acknowledges in the order received (PUBREC for PUBLISH, PUBCOMP for PUBREL), singly or batched in one write; Release(j)/DropReceipt(j) in every order; oracle: each send resolves with the PUBREC of its own id, each release/drop writes exactly one PUBREL with its own id (none while the receipt is held), release() completes Ok exactly when its own PUBCOMP was delivered".into();
     ck.assumptions = vec!["FIFO task order of ntex-rt; nondeterminism = timing of environment events (DESIGN 2.4)".into()];
     ck.finish()
 }
